@@ -104,7 +104,7 @@ end V
 namespace X
 open Truc.Gen Truc.Mach
 
-def droppable (ty : String) : Bool := ["H", "O3", "Z", "Z8", "A16"].contains ty
+def droppable (ty : String) : Bool := ["H", "O3", "Z", "Z8", "A16", "H40"].contains ty
 def isZst (ty : String) : Bool := ty == "Z" || ty == "Z8"
 
 structure XS where
@@ -151,6 +151,35 @@ def run (xs : XS) (toks : List String) : XS × String :=
       | some (v, buf) => (setReg (delReg xs a) b v buf, outLine "ok" [] [])
       | none => (xs, "bad-op")
     | _, _ => (xs, "bad-op")
+  | ["clonefrombomb", dst, src, fi] =>
+    -- clone-assignment in which the clone of (mandatory) field `fi` of the source panics: the fields before it are assigned
+    -- (their previous values destroyed), field `fi` and the later ones keep what they held, nothing else is destroyed
+    match dst.toNat?, src.toNat?, fi.toNat? with
+    | some dreg, some sreg, some fi =>
+      match getReg xs dreg, getReg xs sreg with
+      | some (dv, db), some (_, sb) =>
+        match xs.specs[dv]? with
+        | none => (xs, "bad-op")
+        | some sp =>
+          -- what is dropped and where it stops come from the model proved in C16_clone_from_panic_safe
+          let valOf (b : Buf) (d : D) : Val := match b.find d with | some e => e.val | none => ⟨0, d.ty⟩
+          let fs := sp.data.map fun d => (d, valOf sb d, valOf db d)
+          let bombV := (sp.data[fi]?).map (valOf sb)
+          let (_, mdrops, mk) := Frag.cloneFromBomb droppable cloneVal (fun v => some v == bombV) fs
+          let fi := mk.getD fi
+          let (nb, _, acc) := (sp.data.take fi).foldl (fun (acc : Buf × List Val × List Access) d =>
+            let (cur, dr, ac) := acc
+            let sv := match sb.find d with | some e => e.val | none => ⟨0, d.ty⟩
+            let nv := if d.uninit then sv else cloneVal sv
+            let (cur', old) := cur.assign droppable d nv
+            (cur', dr ++ old, ac ++ [("get", d.offset, d.ty), ("get_mut", d.offset, d.ty)])) (db, [], [])
+          -- the harness reads the bombed field's id first; the failing statement itself takes both accessors before the clone panics
+          let bomb := (sp.data.drop fi).take 1
+          let acc := acc ++ (bomb.map fun d => (("get", d.offset, d.ty) : Access)) ++
+            (bomb.foldl (fun ac d => ac ++ [("get", d.offset, d.ty), ("get_mut", d.offset, d.ty)]) [])
+          (setReg xs dreg dv nb, outLine (if mk.isSome then "panic" else "no-panic") mdrops acc)
+      | _, _ => (xs, "bad-op")
+    | _, _, _ => (xs, "bad-op")
   | [kind, v, r, vals] =>
     if kind == "new" || kind == "newu" then
       match v.toNat?, r.toNat? with
